@@ -22,8 +22,7 @@ CONSTANTS NA,          \* accounts 1..NA
           Assets,      \* e.g. {"nria", "alt", "big"}
           BigCap,      \* model stand-in for u128::MAX for asset "big" (real amount = model * floor(u128::MAX / BigCap))
           Profile,     \* selects initial state classes and the transaction universe
-          MaxTxs,      \* transactions per behaviour (block)
-          LockVC       \* variable fee component of a BridgeLock: 16 + |asset| + |destination address|
+          MaxTxs       \* transactions per behaviour (block)
 
 Acct == 1..NA
 NoAcct == 0
@@ -86,9 +85,13 @@ Credit(s, a, asset, amt) ==
   IF s.bal[a][asset] + amt > Cap(asset) THEN Fail ELSE Ok([s EXCEPT !.bal[a][asset] = @ + amt])
 Then(r, F(_)) == IF r.ok THEN F(r.s) ELSE Fail
 
+\* variable fee component of a BridgeLock: DEPOSIT_BASE_FEE (16) + |asset denomination| + |destination chain
+\* address|; the harness uses the one-character destination address "d"
+LockVC(asset) == 16 + (CASE asset = "nria" -> 4 [] asset = "alt" -> 3 [] asset = "big" -> 3 [] OTHER -> 4) + 1
+
 \* variable component of the fee (fees/fee_handler.rs)
 VC(a) == CASE a.k = "rollup_data" -> a.sz
-           [] a.k = "bridge_lock" -> LockVC[a.asset]
+           [] a.k = "bridge_lock" -> LockVC(a.asset)
            [] OTHER -> 0
 
 \* checked_action.rs pay_fee + utils.rs fee
@@ -105,7 +108,8 @@ Deposit(s, b, asset, amt) == [s EXCEPT !.deps = Append(@, [b |-> b, asset |-> as
 
 \* Checks made once, when the CheckedAction is constructed (facts that cannot change afterwards)
 ImmutableOK(s, signer, a) ==
-  CASE a.k = "bridge_lock" -> s.bridge[a.to].is /\ s.bridge[a.to].asset = a.asset
+  CASE a.k = "rollup_data" -> a.sz > 0        \* "cannot have empty data for rollup data submission"
+    [] a.k = "bridge_lock" -> s.bridge[a.to].is /\ s.bridge[a.to].asset = a.asset
     [] a.k = "bridge_unlock" -> a.amt > 0 /\ s.bridge[a.from].is
     [] a.k = "bridge_transfer" ->
          /\ a.amt > 0 /\ s.bridge[a.from].is
@@ -198,7 +202,7 @@ BaseState ==
    nonce |-> [a \in Acct |-> 0],
    sudo |-> 1, ibcSudo |-> 1, relayers |-> {},
    feeAssets |-> {"nria"},
-   fee |-> [k \in Kinds |-> Fee(1, 1)],
+   fee |-> [k \in Kinds |-> IF k = "fee_change" THEN Fee(0, 0) ELSE Fee(1, 1)],
    bridge |-> [a \in Acct |-> NoBridge],
    wdSeen |-> {},
    bfees |-> [x \in Assets |-> 0],
@@ -211,7 +215,7 @@ NoTx == Tx(NoAcct, 0, <<>>)
 \* ---- profiles: initial state classes and transaction universes -------------------------------------
 \* "fees": C01 — fee formula, fee asset gate, payer, routing at end of block, overflow/underflow
 FeesInit ==
-  {[BaseState EXCEPT !.fee = [k \in Kinds |-> f],
+  {[BaseState EXCEPT !.fee = [k \in Kinds |-> IF k = "fee_change" THEN Fee(0, 0) ELSE f],
                      !.feeAssets = fas,
                      !.bal[2]["nria"] = bn, !.bal[2]["alt"] = ba, !.bal[2]["big"] = bb, !.bal[3]["big"] = BigCap - 1,
                      !.sudo = sd,
